@@ -598,6 +598,7 @@ var knownOOMDemo, _ = base64.StdEncoding.DecodeString("/////zAAAAAQAAAAAAAKQAwAC
 func TestMain(m *testing.M) {
 	lib.MaybeChild(map[string]lib.ChildHandler{
 		"c01garbage": childGarbage,
+		"c03":        childC03,
 	})
 	code := m.Run()
 	sandbox.Close()
